@@ -52,3 +52,110 @@ pub proof fn lemma_floor_form(q: int, r: int, d: int)
         assert(q * d <= -d) by (nonlinear_arith) requires q <= -1, d > 0;
     }
 }
+
+/// floor and remainder of (a*k)/(b*k)
+pub proof fn lemma_div_cancel(a: int, b: int, k: int)
+    requires b > 0, k > 0
+    ensures
+        b * k > 0,
+        (a * k) / (b * k) == a / b,
+        (a * k) % (b * k) == (a % b) * k,
+{
+    assert(b * k > 0) by (nonlinear_arith) requires b > 0, k > 0;
+    let q = a / b;
+    let r = a % b;
+    vstd::arithmetic::div_mod::lemma_fundamental_div_mod(a, b);
+    vstd::arithmetic::div_mod::lemma_mod_bound(a, b);
+    assert(a * k == q * (b * k) + r * k) by (nonlinear_arith) requires a == b * q + r;
+    assert(0 <= r * k < b * k) by (nonlinear_arith) requires 0 <= r < b, k > 0;
+    lemma_div_mod_unique(a * k, b * k, q, r * k);
+}
+
+/// L1: a common positive factor of numerator and denominator does not change the rounded quotient
+pub proof fn lemma_round_div_cancel(a: int, b: int, k: int, m: RoundingMode)
+    requires b > 0, k > 0
+    ensures round_div(a * k, b * k, m) == round_div(a, b, m)
+{
+    lemma_div_cancel(a, b, k);
+    let r = a % b;
+    vstd::arithmetic::div_mod::lemma_mod_bound(a, b);
+    assert((r == 0) <==> (r * k == 0)) by (nonlinear_arith) requires k > 0;
+    assert((a > 0) <==> (a * k > 0)) by (nonlinear_arith) requires k > 0;
+    assert(2 * (r * k) == (2 * r) * k) by (nonlinear_arith);
+    assert((2 * r < b) <==> ((2 * r) * k < b * k)) by (nonlinear_arith) requires k > 0;
+    assert((2 * r > b) <==> ((2 * r) * k > b * k)) by (nonlinear_arith) requires k > 0;
+}
+
+/// floor(floor(n/m)/d) == floor(n/(m*d)) and the remainder decomposition
+pub proof fn lemma_div_div(n: int, m: int, d: int)
+    requires m > 0, d > 0
+    ensures
+        m * d > 0,
+        (n / m) / d == n / (m * d),
+        n % (m * d) == m * ((n / m) % d) + n % m,
+{
+    assert(m * d > 0) by (nonlinear_arith) requires m > 0, d > 0;
+    let q = n / m;
+    let r = n % m;
+    let f = q / d;
+    let t = q % d;
+    vstd::arithmetic::div_mod::lemma_fundamental_div_mod(n, m);
+    vstd::arithmetic::div_mod::lemma_mod_bound(n, m);
+    vstd::arithmetic::div_mod::lemma_fundamental_div_mod(q, d);
+    vstd::arithmetic::div_mod::lemma_mod_bound(q, d);
+    assert(n == f * (m * d) + (m * t + r)) by (nonlinear_arith) requires n == m * q + r, q == d * f + t;
+    assert(0 <= m * t + r < m * d) by (nonlinear_arith) requires 0 <= r < m, 0 <= t < d, t <= d - 1;
+    lemma_div_mod_unique(n, m * d, f, m * t + r);
+}
+
+/// L2: rounding n/(m*d) equals rounding floor(n/m)/d when m | n, and rounding (2*floor(n/m)+1)/(2d)
+/// otherwise, provided d is even (the half-way point d/2 is integral)
+pub proof fn lemma_round_div_sticky(n: int, m: int, d: int, mode: RoundingMode)
+    requires m > 0, d >= 2, d % 2 == 0
+    ensures
+        m * d > 0,
+        n % m == 0 ==> round_div(n, m * d, mode) == round_div(n / m, d, mode),
+        n % m != 0 ==> round_div(n, m * d, mode) == round_div(2 * (n / m) + 1, 2 * d, mode),
+{
+    lemma_div_div(n, m, d);
+    let q = n / m;
+    let r = n % m;
+    let f = q / d;
+    let t = q % d;
+    let h = d / 2;
+    assert(d == 2 * h);
+    vstd::arithmetic::div_mod::lemma_fundamental_div_mod(n, m);
+    vstd::arithmetic::div_mod::lemma_mod_bound(n, m);
+    vstd::arithmetic::div_mod::lemma_fundamental_div_mod(q, d);
+    vstd::arithmetic::div_mod::lemma_mod_bound(q, d);
+    let big = m * d;
+    let rem = n % big;
+    assert(rem == m * t + r);
+    // sign of n vs sign of q
+    if q >= 0 { assert(m * q >= 0) by (nonlinear_arith) requires m > 0, q >= 0; }
+    else { assert(m * q <= -m) by (nonlinear_arith) requires m > 0, q <= -1; }
+    if r == 0 {
+        // exact first division: n = m*q, compare remainders scaled by m
+        assert(rem == m * t);
+        assert((rem == 0) <==> (t == 0)) by (nonlinear_arith) requires rem == m * t, m > 0;
+        assert((n > 0) <==> (q > 0)) by (nonlinear_arith) requires n == m * q, m > 0;
+        assert(2 * rem == m * (2 * t)) by (nonlinear_arith) requires rem == m * t;
+        assert(big == m * d);
+        assert((2 * rem < big) <==> (2 * t < d)) by (nonlinear_arith) requires 2 * rem == m * (2 * t), big == m * d, m > 0;
+        assert((2 * rem > big) <==> (2 * t > d)) by (nonlinear_arith) requires 2 * rem == m * (2 * t), big == m * d, m > 0;
+    } else {
+        // 2q+1 over 2d: floor f, remainder 2t+1 (odd, never 0, never d)
+        assert(2 * q + 1 == f * (2 * d) + (2 * t + 1)) by (nonlinear_arith) requires q == d * f + t;
+        lemma_div_mod_unique(2 * q + 1, 2 * d, f, 2 * t + 1);
+        assert(rem > 0);
+        assert((n > 0) <==> (2 * q + 1 > 0));
+        // rem vs half of big
+        if t + 1 <= h {
+            assert(2 * rem < big) by (nonlinear_arith) requires rem == m * t + r, 0 < r < m, t + 1 <= h, big == m * d, d == 2 * h;
+            assert(2 * (2 * t + 1) < 2 * d);
+        } else {
+            assert(2 * rem > big) by (nonlinear_arith) requires rem == m * t + r, 0 < r < m, t >= h, big == m * d, d == 2 * h;
+            assert(2 * (2 * t + 1) > 2 * d);
+        }
+    }
+}
